@@ -35,7 +35,7 @@ CHECKS = {
                       'part size 4..40 bytes, <=3 transfers per copy, <=3 copies and <=2 removals between two copies, <=8 faults per run; faults only at operations the copier runs '
                       'under retry_transient_errors; schedule-dependent transfer combinations are pruned by the model; trusts '
                       'the scratch file system, CPython asyncio on the simulated loop and the reference model.',
-        'scenarios': [{'module': 'worlds.fs.copy', 'quick': 16000, 'thorough': 200000,
+        'scenarios': [{'module': 'worlds.fs.copy', 'quick': 16000, 'thorough': 100000,
                        'wall_cap': {'quick': 240.0, 'thorough': 1150.0}}],
         'expected_probes': ['multi_part_file', 'multi_part_file_observed', 'size_eq_part_boundary', 'size_multiple_of_part',
                             'zero_byte_file', 'dest_exists_dir', 'dest_exists_file', 'dest_missing', 'dest_parent_missing',
@@ -67,7 +67,7 @@ CHECKS = {
                       'azure-storage-blob download_blob(offset, length) semantics for Azure) -- hence borderline. Offsets at or '
                       'past the end of the object are not judged beyond "no data is returned" (undocumented; backends differ). '
                       'Object size <= 37 bytes, <= 4 operations per run.',
-        'scenarios': [{'module': 'worlds.fs.ranged', 'quick': 40000, 'thorough': 800000,
+        'scenarios': [{'module': 'worlds.fs.ranged', 'quick': 40000, 'thorough': 280000,
                        'wall_cap': {'quick': 240.0, 'thorough': 1150.0}}],
         'expected_probes': ['backend:local', 'backend:gcs', 'backend:s3', 'backend:azure', 'via_router', 'zero_size_object',
                             'range_empty', 'range_ends_at_last_byte', 'range_is_last_byte_only', 'range_past_eof',
